@@ -108,8 +108,31 @@ def private_buffers(R, P):
     R.require(n >= 2, "only %d callers of %s found (confirmed: default formatter, no-alloc logger)" % (n, F))
 
 
+def private_state(R, P):
+    """LINE/private-state: the line formatter runs before (outside) every lock, on any thread that logs: each mutable
+    variable with static storage it touches is thread-local (the cached thread-id text belongs to the calling thread)."""
+    f = P.fn(F)
+    if f is None:
+        return
+    seen, bad = set(), []
+    for b in f.blocks.values():
+        for el in list(b.elems) + ([b.cond] if b.cond is not None else []):
+            for x in f.walk(el):
+                if x["k"] == "var" and x.get("sc") in ("global", "slocal") and x["n"] not in seen:
+                    seen.add(x["n"])
+                    g = P.globals.get(x["n"]) or {}
+                    t = f.unit.types[x["t"]] if x.get("t", -1) >= 0 else {}
+                    if g.get("const") or t.get("fnptr") or x.get("sc") == "global" and not g:
+                        continue
+                    if not g.get("tls"):
+                        bad.append(x["n"])
+    R.check(not bad and any((P.globals.get(n_) or {}).get("tls") for n_ in seen), "LINE", "private-state:%s" % F, "%s in %s()" % (FILE, F), "the mutable static-storage variables the formatter uses are thread-local (%s)" % sorted(n_ for n_ in seen if (P.globals.get(n_) or {}).get("tls")),
+            "the line formatter reads and writes %s, which has static storage and is not thread-local: every thread that logs shares it without a lock (each line carries the thread id of whichever thread filled the cache first)" % bad)
+
+
 def line_assembly(ctx, R, P):
     private_buffers(R, P)
+    private_state(R, P)
     f = P.fn(F)
     if not R.require(f is not None, "%s not found" % F):
         return
